@@ -269,3 +269,94 @@ def _domain_deriving(n):
 
 
 DOMAIN[I + 'get_incompatibility_deriving_nodes'] = _domain_deriving
+
+
+# first half of get_mod_nodes_remove_incompatibilities: which nodes go because they are incompatible with a confirmed
+# node, and when the graph is declared infeasible (C06). The second half (derived / deriving nodes of each target) calls
+# get_derived_edges_for_edge/_node, which are not under contract, and get_incompatibility_deriving_nodes (above).
+CONTRACTS[I + 'get_mod_nodes_remove_incompatibilities@confirmed-pairs'] = dict(
+    properties=['C06'],
+    stop_before='if removed_edges is None:',
+    types={'graph': 'Ref[NxGraph]', 'start_nodes': 'Set[Ref]', 'removed_edges': f'Optional[Set[{EDGE}]]', 'cache': 'Ref'},
+    returns='Set[Ref]',
+    ghost={'S': 'Set[Ref]'},
+    locals={'removed_nodes': 'Set[Ref]', 'confirmed_incompatibility_edges': f'Set[{EDGE}]',
+            'infeasible_incompatibility_edges': f'Set[{EDGE}]', 'confirmed_nodes': 'Set[Ref]'},
+    defs={'E': (('u', 'v'), E),
+          'INC': (('e',), 'e in graph.edge_set and e[3] == EdgeType.INCOMPATIBILITY')},
+    calls={'traverse_until_choice_nodes': TRAV_NONE,
+           'iter_edges': dict(params=['graph'], types={}, returns=f'Set[{EDGE}]', modifies=[],
+                              ensures=[f"forall('e:{EDGE}', (e in result) == (e in graph.edge_set))"]),
+           'get_edge_type': GET_TYPE,
+           'IncompatibilityError': dict(params=['msg', 'edges', 'removed_nodes'], types={}, returns='Ref', modifies=[], ctor=True, cls='IncompatibilityError')},
+    loops={'for edge in iter_edges(graph)': dict(processed='P', invariant={
+        'infeasible-are-confirmed-pairs': f"forall('e:{EDGE}', (e in infeasible_incompatibility_edges) == (e in P and e[3] == EdgeType.INCOMPATIBILITY and e[0] in confirmed_nodes and e[1] in confirmed_nodes))",
+        'confirmed-source-edges': f"forall('e:{EDGE}', (e in confirmed_incompatibility_edges) == (e in P and e[3] == EdgeType.INCOMPATIBILITY and e[0] in confirmed_nodes and not (e[1] in confirmed_nodes)))",
+        'their-targets-go': f"forall('x:Ref', (x in removed_nodes) == exists('e:{EDGE}', e in P and e[3] == EdgeType.INCOMPATIBILITY and e[0] in confirmed_nodes and not (e[1] in confirmed_nodes) and e[1] == x))",
+    })},
+    # statement of C06: both ends confirmed (= in every closed set containing the start nodes) <=> infeasible
+    must_raise={'confirmed-pair': ('IncompatibilityError',
+                f"exists('e:{EDGE}', INC(e) and e[0] in start_nodes and e[1] in start_nodes)")},
+    may_raise=['IncompatibilityError'],
+    ensures={
+        'no-confirmed-pair-left': ('property',
+            f"implies(subset(start_nodes, S) and {CLOSED_S}, forall('e:{EDGE}', implies(INC(e), not (e[0] in final_confirmed_nodes and e[1] in final_confirmed_nodes))))"),
+        'targets-of-confirmed-nodes-removed': ('property',
+            f"forall('e:{EDGE}', implies(INC(e) and e[0] in final_confirmed_nodes, e[1] in final_removed_nodes))"),
+        'nothing-confirmed-removed': ('property', "forall('x:Ref', implies(x in final_removed_nodes, not (x in final_confirmed_nodes)))"),
+        'only-incompatible-nodes-removed': ('property',
+            f"forall('x:Ref', implies(x in final_removed_nodes, exists('e:{EDGE}', INC(e) and e[0] in final_confirmed_nodes and e[1] == x)))"),
+        'confirmed-are-the-closure': ('carrier', f"implies(subset(start_nodes, S) and {CLOSED_S}, subset(final_confirmed_nodes, S))"),
+    },
+    post_locals=['confirmed_nodes', 'removed_nodes'],
+    modifies=[],
+)
+
+
+def _domain_remove_incompat(n):
+    """The segment itself (cut out of the real source up to the stop statement) run by CPython on small real graphs."""
+    import random, os
+    import networkx as nx
+    from pyvc.replay import segment_callable
+    from adsg_core.graph.graph_edges import EdgeType, add_edge, HashableDict
+    from adsg_core.graph.adsg_nodes import NamedNode, SelectionChoiceNode, ChoiceNode
+    key = I + 'get_mod_nodes_remove_incompatibilities@confirmed-pairs'
+    seg = segment_callable(key, CONTRACTS[key], os.environ.get('VERIF_REPO', '/repo'))
+    rng = random.Random(8500 + int(os.environ.get('VERIF_SEED', '0') or 0))
+    types = [EdgeType.DERIVES, EdgeType.DERIVES, EdgeType.INCOMPATIBILITY, EdgeType.INCOMPATIBILITY, EdgeType.CONNECTS]
+    for _ in range(n):
+        nn = rng.randint(2, 7)
+        nodes = [SelectionChoiceNode(f'c{i}') if rng.random() < 0.2 else NamedNode(f'n{i}') for i in range(nn)]
+        g = nx.MultiDiGraph()
+        g.edge_attr_dict_factory = HashableDict
+        g.add_nodes_from(nodes)
+        es = set()
+        for _ in range(rng.randint(1, 9)):
+            u, v = rng.sample(nodes, 2)
+            t = rng.choice(types)
+            key_ = g.new_edge_key(u, v)
+            add_edge(g, u, v, key=key_, edge_type=t)
+            es.add((u, v, key_, t))
+            if t == EdgeType.INCOMPATIBILITY and rng.random() < 0.8:      # the library adds both directions
+                key_ = g.new_edge_key(v, u)
+                add_edge(g, v, u, key=key_, edge_type=t)
+                es.add((v, u, key_, t))
+        g.edge_set = es
+        start = set(rng.sample(nodes, rng.randint(1, min(2, nn))))
+        S = set(start)
+        changed = True
+        while changed:
+            changed = False
+            for (u, v, k, t) in es:
+                if t in (EdgeType.DERIVES, EdgeType.CONNECTS) and u in S and (u in start or not isinstance(u, ChoiceNode)) \
+                        and not isinstance(v, ChoiceNode) and v not in S:
+                    S.add(v)
+                    changed = True
+        env = {'graph': g, 'start_nodes': set(start), 'removed_edges': None, 'cache': None, 'S': S, 'EdgeType': EdgeType,
+               'ChoiceNode': ChoiceNode}
+        yield (env, (lambda g=g, start=start: seg(graph=g, start_nodes=set(start), removed_edges=None, cache=None)),
+               {'Ref': nodes, 'Int': [0, 1, 2], EDGE: list(es)},
+               f'get_mod_nodes_remove_incompatibilities[segment](edges={[(str(u), str(v), k, t.name) for u, v, k, t in es]}, start={[str(x) for x in start]})')
+
+
+DOMAIN[I + 'get_mod_nodes_remove_incompatibilities@confirmed-pairs'] = _domain_remove_incompat
